@@ -239,16 +239,26 @@ Definition check_put (fl : flavor) (reqpath data : string) (ret : outcome)
     not consult the backend before Put, so every step is judged as a PUT of its own: whether
     an object was retrievable at the request path before (an earlier PUT, or one that was
     there) must not matter, and the client gets back the path the backend answered. *)
+(** outside the premises of the theorems only agreement with the model is required *)
+Definition verdict_settle (v : verdict) : verdict :=
+  {| agree := agree v; spec := spec v || negb (applies v); applies := applies v; finding := finding v |}.
+(** several judgements of one case (the steps of a history): each settled on its own *)
 Definition verdict_and (a b : verdict) : verdict :=
   {| agree := agree a && agree b; spec := spec a && spec b; applies := applies a && applies b;
      finding := finding a || finding b |}.
+Definition verdict_ok : verdict := {| agree := true; spec := true; applies := true; finding := false |}.
+(** the implementation panicked, answered unreadably, or the machinery saw it modify an
+    argument / a result it had handed out *)
+Definition verdict_fail : verdict := {| agree := false; spec := false; applies := true; finding := false |}.
+(** the behaviour differs from the model in a way the specification does not speak about *)
+Definition verdict_break : verdict := {| agree := false; spec := true; applies := true; finding := false |}.
 Fixpoint check_putseq (fl : flavor) (reqpath : string) (steps : list (string * outcome))
          (obs : list (cres obj_view * option (string * string))) : verdict :=
   match steps, obs with
-  | [], [] => {| agree := true; spec := true; applies := true; finding := false |}
+  | [], [] => verdict_ok
   | (d, ret) :: steps', (c, r) :: obs' =>
-    verdict_and (check_put fl reqpath d ret c r) (check_putseq fl reqpath steps' obs')
-  | _, _ => {| agree := false; spec := false; applies := true; finding := false |}
+    verdict_and (verdict_settle (check_put fl reqpath d ret c r)) (check_putseq fl reqpath steps' obs')
+  | _, _ => verdict_fail
   end.
 
 (** ** Documents from the independent writer, and arbitrary trees *)
